@@ -66,7 +66,7 @@ FAULT_KINDS = ["enospc", "eisdir", "efbig"]
 PROBES = ["failed_conversion_over_existing_artifact", "failed_conversion_without_artifact", "streaming_converter_failed_late",
           "torn_first_byte", "torn_middle", "torn_last_byte", "success_after_failure", "two_outs", "error_after_out",
           "foreign_preexisting", "built_from_other_cwd", "built_through_directory_walk", "built_through_dotslash", "source_is_symlink", "companion_built_first", "companion_failed_late", "source_untouched_between_builds", "out_inside_module_body", "companion_built_last", "tmpdir_on_another_file_system",
-          "imports_a_file_with_its_own_out"]
+          "imports_a_file_with_its_own_out", "equal_value_rendered_earlier_in_other_field_order", "import_between_two_outs"]
 
 TIERS = {
     "quick": {"runs": 640, "wall_cap": 200},
@@ -102,6 +102,16 @@ def enum_worlds(tier):
     if tier not in _ENUM:
         _ENUM[tier] = _enum_worlds(tier)
     return _ENUM[tier]
+
+
+REORDER = {"json": ('{a = 1, b = "@U@", c = [1, 2]}', '{c = [1, 2], b = "@U@", a = 1}'),
+           "yaml": ('{a = 1, b = "@U@", c = [1, 2]}', '{c = [1, 2], b = "@U@", a = 1}'),
+           "toml": ('{a = 1, b = "@U@"}', '{b = "@U@", a = 1}'),
+           "env": ('{A = 1, B = "@U@"}', '{B = "@U@", A = 1}'),
+           "flags": ('{a = 1, b = "@U@"}', '{b = "@U@", a = 1}'),
+           "yamlmulti": ('[{a = 1, b = "@U@"}]', '[{b = "@U@", a = 1}]'),
+           "exec": ('{command = "run", env = {A = "1", B = "@U@"}}', '{env = {B = "@U@", A = "1"}, command = "run"}'),
+           "xml": ('{root = {name = "r", attrs = {a = "1", b = "@U@"}}}', '{root = {attrs = {b = "@U@", a = "1"}, name = "r"}}')}
 
 
 def generate(rng, tier, idx):
@@ -152,7 +162,11 @@ def generate(rng, tier, idx):
             c2, t2 = rng.choice(GOOD[conv2])
             st["outs"] = [{"conv": conv, "cls": c1, "expr": t1.replace("@U@", u)},
                           {"conv": conv2, "cls": c2, "expr": t2.replace("@U@", u + "b")}]
-            st["two_shape"] = rng.weighted([("top_top", 5), ("module_then_top", 2), ("module_twice", 1), ("top_then_module", 1)])
+            st["two_shape"] = rng.weighted([("top_top", 5), ("module_then_top", 2), ("module_twice", 1), ("top_then_module", 1), ("import_between", 2)])
+            if st["two_shape"] == "import_between":
+                dconv = rng.choice(["json", "yaml", "toml", "env"])
+                dcls, dt = rng.choice(GOOD[dconv])
+                st["dep_out"] = {"conv": dconv, "cls": dcls, "expr": dt.replace("@U@", "d" + u), "between": True}
             if st["two_shape"] == "module_twice":
                 st["outs"][1] = dict(st["outs"][0])
         elif k == "zero":
@@ -181,7 +195,16 @@ def generate(rng, tier, idx):
             st["envtok"] = "t" + rng.token(7)
             w["steps"].append(st)
             st = dict(st, envtok=("t" + rng.token(7)) if rng.chance(70) else ("longer" + rng.token(9)))
-        if w["how"] == "file" and name_cls != "symlink" and not st.get("fault") and rng.chance(20):
+        if k == "good" and not st.get("fault") and not st.get("envtok") and rng.chance(12):
+            # the same value with its fields in another order was rendered earlier in this process: by a companion file built first,
+            # or by a `convert` expression earlier in the same file.  Equal values, different bytes.
+            first, second = REORDER[conv]
+            st["outs"] = [{"conv": conv, "cls": "reordered", "expr": first.replace("@U@", u)}]
+            if rng.chance(50) and w["how"] == "file" and name_cls != "symlink":
+                st["companion"] = {"conv": conv, "cls": "reordered_twin", "expr": second.replace("@U@", u), "after": False}
+            else:
+                st["pre_convert"] = {"conv": conv, "expr": second.replace("@U@", u)}
+        if w["how"] == "file" and name_cls != "symlink" and not st.get("fault") and not st.get("companion") and rng.chance(20):
             # another source of the same invocation, built first: its conversion succeeds, fails at once or fails late
             cconv = rng.choice(CONVERTERS)
             pool = GOOD[cconv] + BAD[cconv] + [c for c in BAD[cconv] if c[0].startswith("late")] * 3
@@ -193,7 +216,9 @@ def generate(rng, tier, idx):
 
 def program(step):
     lines = [PRELUDE]
-    if step.get("dep_out"):
+    if step.get("pre_convert"):
+        lines.append("let rendered_before = convert %s %s;\n" % (step["pre_convert"]["conv"], step["pre_convert"]["expr"]))
+    if step.get("dep_out") and not step["dep_out"].get("between"):
         lines.append('let dep = import "./dep_with_out.ucg";\nlet dep_marker = dep.marker;\n')
     if step["k"] == "zero":
         lines.append('let a = "%s";\n' % step["u"])
@@ -211,6 +236,11 @@ def program(step):
         a, b = step["outs"]
         lines.append("out %s %s;\n" % (a["conv"], a["expr"]))
         lines.append("let holder = module {a = 1} => { out %s %s; };\nlet inst = holder{};\n" % (b["conv"], b["expr"]))
+    elif shape == "import_between" and len(step["outs"]) == 2:
+        a, b = step["outs"]
+        lines.append("out %s %s;\n" % (a["conv"], a["expr"]))
+        lines.append('let dep = import "./dep_with_out.ucg";\nlet dep_marker = dep.marker;\n')
+        lines.append("out %s %s;\n" % (b["conv"], b["expr"]))
     else:
         for o in step["outs"]:
             lines.append("out %s %s;\n" % (o["conv"], o["expr"]))
@@ -330,6 +360,8 @@ def execute(world, sb, res):
         else:
             res.probe("source_untouched_between_builds")
         outs = st["outs"]
+        if outs and outs[0]["cls"] == "reordered":
+            res.probe("equal_value_rendered_earlier_in_other_field_order")
         envtok = st.get("envtok")
         step_env = {"UCGSIM_TOK": envtok} if envtok else {}
         td = world.get("tmpdir", "unset")
@@ -428,6 +460,10 @@ def execute(world, sb, res):
             # informational lines (converters announce what they skip) are not an error block
             seg = [l for l in seg_text.split("\n")[1:] if l.strip() and not _INFO.match(l)]
             failed = len(seg) > 0
+            comp_failed = comp_ref is None
+            if (inv.status != 0) != (failed or comp_failed) and not inv.timed_out:
+                res.violate("C14.exit-status", "with-companion", "exit status %s although %s\n%s" % (
+                    inv.status, "one of the two files failed" if (failed or comp_failed) else "both files built", cctx))
         if dep:
             # the imported library's artifact: complete or absent, and then out of the picture for the source under test
             got_d = sb.read(dep_art) if sb.exists(dep_art) and os.path.isfile(sb.p(dep_art)) else None
@@ -561,6 +597,8 @@ def execute(world, sb, res):
             outcome = "failed"
         elif len(outs) == 2:
             res.probe("two_outs")
+            if st.get("two_shape") == "import_between":
+                res.probe("import_between_two_outs")
             if st.get("two_shape", "top_top") != "top_top":
                 res.probe("out_inside_module_body")
             if not failed:
